@@ -316,6 +316,8 @@ def fold(ctx, rep, rule):
             if t[1] in ("BitOr", "Add", "BitXor") and t[2][0] == "bin":
                 inner = t[2]
                 x = t[3]
+                while x[0] in ("cast", "deref"):   # the octet may be widened inside the step: (acc << 8) | (*x as u64)
+                    x = x[1]
                 if inner[1] == "Shl" and inner[3][0] == "const":
                     if inner[3][1] == 8 and inner[2] == ("arg", 2) and x == ("arg", 3):
                         good = True
@@ -514,7 +516,9 @@ def pdu_tags(ctx, rep, rule):
                           (vn, [flow.fmt(x) for x in tagsv], expect[vn]), enc.loc(), obligation=True)
                 # the body pushed is the variant's own payload
                 pb = [enc.blocks[bi] for bi in sorted(blocks) if enc.blocks[bi].term and enc.blocks[bi].term["k"] == "call" and
-                      (callee_path(enc.blocks[bi].term) or "").endswith("BerEncoder>::push_ber")]
+                      ((callee_path(enc.blocks[bi].term) or "").endswith("BerEncoder>::push_ber") or
+                       # through a generic helper `fn wrap<T: BerEncoder>(.., body: &T)` inlined here: the call is <T as BerEncoder>::push_ber
+                       (enc.blocks[bi].term["callee"].get("trait") == "ber::BerEncoder" and enc.blocks[bi].term["callee"].get("method") == "push_ber"))]
                 okb = bool(pb) and all(flow.mentions(prov.operand(b.term["args"][0]), lambda s: s == ("dc", ("arg", 1), vn)) for b in pb)
                 rep.check(rule, key + "|payload", okb, "payload of the same variant", "wrong payload serialised for %s" % vn, enc.loc())
             else:
@@ -620,7 +624,9 @@ def length_forms(ctx, rep, rule):
         try:
             v = facts.const_value(c)
         except Exception:
-            rep.missing(rule, "constant " + c)
+            # a fixed encoding that is no longer in the tree cannot be wrong (its users go through push_tagged / SnmpInt,
+            # which the length-form and contract rules cover)
+            rep.info(rule, c, "constant not present in this tree")
             continue
         rep.check(rule, c, v == want, want.hex(" "), "%s = %s, the minimal encoding is %s" % (c, v.hex(" ") if isinstance(v, bytes) else v, want.hex(" ")))
 
